@@ -17,6 +17,7 @@ from mpservice.mpserver import Server, ServerBacklogFull, ThreadServlet, Timeout
 from mpservice.threading import Thread
 
 MODEL = 'ledger'
+MODEL_MAX_REQUESTS = 6
 FOREVER = 1e6
 
 
@@ -30,16 +31,24 @@ def gen_case(rng: random.Random, tier: str, bias: str = ''):
     big = tier == 'thorough'
     cap = rng.choice([1, 1, 2, 2, 3])
     nworkers = rng.choice([1, 2, 2, 3])
-    ncallers = rng.choice([2, 3, 4, 5] if not big else [2, 3, 4, 6, 8])
-    if bias == 'capacity':
-        ncallers = max(ncallers, cap + 2)
+    # `small` cases (<= 6 requests in total) are also replayed through the Lean ledger model (the
+    # validator's state set grows quickly with the number of concurrent requests); larger ones are
+    # run with the monitors only
+    small = rng.random() < 0.6
+    if small:
+        ncallers = rng.choice([2, 3, 3, 4])
+        cap = rng.choice([1, 1, 2])
+    else:
+        ncallers = rng.choice([3, 4, 5] if not big else [3, 4, 6, 8])
+        if bias == 'capacity':
+            ncallers = max(ncallers, cap + 2)
     r = 0
     callers = []
     for _ in range(ncallers):
         kind = 'stream' if rng.random() < 0.2 else 'call'
         if kind == 'call':
             reqs = []
-            for _ in range(rng.choice([1, 1, 2, 3])):
+            for _ in range(1 if small else rng.choice([1, 1, 2, 3])):
                 abandon = rng.random() < (0.45 if bias == 'abandon' else 0.15)
                 reqs.append(dict(r=r, delay=rng.choice([0, 0, 1, 3]), dur=rng.choice([0, 1, 2, 4, 8]),
                                  fail=rng.random() < 0.15,
@@ -48,7 +57,7 @@ def gen_case(rng: random.Random, tier: str, bias: str = ''):
                 r += 1
             callers.append(dict(kind='call', reqs=reqs))
         else:
-            n = rng.choice([1, 2, 3, 5])
+            n = rng.choice([1, 2]) if small else rng.choice([1, 2, 3, 5])
             items = []
             for _ in range(n):
                 items.append(dict(r=r, dur=rng.choice([0, 1, 2, 4]), fail=rng.random() < 0.15))
@@ -58,7 +67,7 @@ def gen_case(rng: random.Random, tier: str, bias: str = ''):
     early = rng.choice([0.0, 0.02, 0.05, 0.1]) if bias != 'abandon' else rng.choice([0.03, 0.08, 0.15])
     ch = rng.choice([('random', early), ('random', early), ('sticky', 0.2, early), ('sticky', 0.05, early),
                      ('pct', 2, 600, early), ('pct', 3, 600, early)])
-    return dict(cap=cap, nworkers=nworkers, callers=callers, nreq=r, followups=rng.choice([1, 2]),
+    return dict(cap=cap, nworkers=nworkers, callers=callers, nreq=r, followups=1 if small else rng.choice([1, 2]),
                 chooser=list(ch), seed=rng.randrange(1 << 30))
 
 
@@ -94,6 +103,9 @@ def run_case(case):
             b = srv.backlog
             if b > st['max_backlog']:
                 st['max_backlog'] = b
+            if b != st.get('last_backlog', 0):
+                st['last_backlog'] = b
+                log(('blen', b))
 
         with srv:
             detsched.SCHED.on_step.append(sample)
@@ -124,16 +136,23 @@ def run_case(case):
                         do_call(q['r'], q['dur'], q['fail'], q['timeout'], q['bp'])
                 else:
                     items = spec['items']
-                    data = [(it['r'], it['dur'], it['fail']) for it in items]
+
+                    def data():
+                        for it in items:
+                            log(('call', it['r'], 0, 1))     # abandonable: the stream may be closed early
+                            yield (it['r'], it['dur'], it['fail'])
+
                     got = []
                     endk = 'end'
                     try:
-                        gen = srv.stream(iter(data), return_x=True, return_exceptions=spec['rexc'], timeout=FOREVER)
+                        gen = srv.stream(data(), return_x=True, return_exceptions=spec['rexc'], timeout=FOREVER)
                         for x, y in gen:
                             if isinstance(y, WorkErr):
                                 got.append((x[0], ('err', y.r)))
+                                log(('outcome', x[0], 'err', y.r))
                             elif isinstance(y, tuple) and len(y) == 2 and y[0] == 'y':
                                 got.append((x[0], ('ok', y[1])))
+                                log(('outcome', x[0], 'ok', y[1]))
                             else:
                                 got.append((x[0], ('other', repr(y))))
                             if spec['stop_after'] is not None and len(got) == spec['stop_after']:
@@ -142,6 +161,7 @@ def run_case(case):
                                 break
                     except WorkErr as e:
                         endk = ('err', e.r)
+                        log(('outcome', e.r, 'err', e.r))
                     except BaseException as e:  # noqa
                         endk = ('other', repr(e))
                     box.setdefault('streams', []).append((spec, got, endk))
@@ -236,4 +256,35 @@ def run_case(case):
 
 
 def model_lines(cid, case, res):
-    return []
+    """Lines for `drv ledger`: call / emit (worker finished) / outcome events and every change of the
+    public `Server.backlog`."""
+    n = case['nreq'] + case['followups']
+    if n > MODEL_MAX_REQUESTS:
+        return []
+    bps, timed = [], []
+    for e in res['events']:
+        if e[0] == 'call':
+            if e[2]:
+                bps.append(e[1])
+            if e[3]:
+                timed.append(e[1])
+    lines = [f'case {cid} cap={case["cap"]} n={n} bp={",".join(map(str, bps))} timed={",".join(map(str, timed))}']
+    for e in res['events']:
+        if e[0] == 'call':
+            lines.append(f'e call {e[1]}')
+        elif e[0] == 'wfinish':
+            lines.append(f'e emit {e[1]}')
+        elif e[0] == 'blen':
+            lines.append(f'e blen {e[1]}')
+        elif e[0] == 'outcome':
+            if e[2] in ('ok', 'err'):
+                lines.append(f'e answered {e[1]} {e[3]}')
+            elif e[2] == 'full':
+                lines.append(f'e full {e[1]}')
+            elif e[2] == 'timeout':
+                lines.append(f'e timeout {e[1]}')
+    if 'idle_backlog' not in res:
+        lines.append('end partial=1')
+    else:
+        lines.append(f'end idle={res["idle_backlog"]}')
+    return lines
